@@ -197,11 +197,12 @@ func deliveryScenario(t *testing.T, h *H, idx int) {
 	cliSinks := make([]*sink, nclients)
 	var closedEarly []string
 	srvTap, cliTap := newWireTap(), newWireTap()
+	nspName := []string{"/", "/chat", "/", "/a/b"}[(idx/2)%4]
 	synctest.Test(t, func(t *testing.T) {
 		r := newRig(&sio.ServerConfig{ParserCreator: srvTap.creator()})
 		var mu sync.Mutex
 		var srvSocks []sio.ServerSocket
-		r.server.OnConnection(func(s sio.ServerSocket) {
+		r.server.Of(nspName).OnConnection(func(s sio.ServerSocket) {
 			srvSink.register(func(name string, f any) { s.OnEvent(name, f) })
 			mu.Lock()
 			srvSocks = append(srvSocks, s)
@@ -214,7 +215,7 @@ func deliveryScenario(t *testing.T, h *H, idx int) {
 			cliSinks[c] = &sink{want: map[string]emitted{}}
 			m := r.manager(trs, &sio.ManagerConfig{NoReconnection: true, ParserCreator: cliTap.creator()})
 			ms = append(ms, m)
-			s := m.Socket("/", nil)
+			s := m.Socket(nspName, nil)
 			cliSinks[c].register(func(name string, f any) { s.OnEvent(name, f) })
 			s.OnDisconnect(func(reason sio.Reason) { mu.Lock(); closedEarly = append(closedEarly, fmt.Sprintf("client %d: %s", c, reason)); mu.Unlock() })
 			s.Connect()
@@ -273,7 +274,7 @@ func deliveryScenario(t *testing.T, h *H, idx int) {
 		closedEarly = closedEarly[:over]
 		mu.Unlock()
 	})
-	desc := fmt.Sprintf("transports=%v clients=%d emitters=%d x %d events", trs, nclients, nem, per)
+	desc := fmt.Sprintf("transports=%v namespace=%s clients=%d emitters=%d x %d events", trs, nspName, nclients, nem, per)
 	h.NonTrivial(desc + fmt.Sprint(idx))
 	h.Dist("delivery." + strings.Join(trs, "+"))
 	if len(closedEarly) > 0 {
